@@ -227,7 +227,8 @@ def delete_couchdb_revision(url: str):
     :param url: URL to the CouchDB document
     """
     with _revision_store_lock:
-        del _revision_store[url]
+        # No revision is known for documents that have never been added or fetched by this process
+        _revision_store.pop(url, None)
 
 
 class CouchDBObjectStore(model.AbstractObjectStore):
@@ -418,7 +419,8 @@ class CouchDBObjectStore(model.AbstractObjectStore):
                                                   self.database_name,
                                                   self._transform_id(x.id)))
         with self._object_cache_lock:
-            del self._object_cache[x.id]
+            # The object may never have been added to or fetched from this store by this process
+            self._object_cache.pop(x.id, None)
         x.source = ""
 
     def __contains__(self, x: object) -> bool:
